@@ -235,6 +235,11 @@ PrExact(n, A, p, q, f) ==
   LET S == PrSystem(n, A, p, q, f)  c == Cramer(S.Mx, S.b)  t == SeqSum(c.num)
   IN [i \in 1..n |-> IF t < 0 THEN <<-c.num[i], -t>> ELSE <<c.num[i], t>>]
 
+(* observed r equals the (unique) solution, to 2 units of 10^-6                        *)
+PrNearExact(n, A, p, q, f, r6) ==
+  LET X == PrExact(n, A, p, q, f) IN
+  \A i \in 1..n : FracFits(X[i]) => Abs(r6[i] - Round6(X[i][1], X[i][2])) <= 2
+
 (* ------------------------------------------------ eigenvector centrality ------- *)
 (* observed v at 10^-6 is rounded to V = v * 10^4 (double rounding <= 0.55 unit).   *)
 (* "non-negative": V >= 0.  "unit": sum V^2 = 10^8 +- (2 sum V + n).                *)
